@@ -8,7 +8,7 @@ import ecc_file_x as fx
 import ecc_scen as es
 import ecc_util as eu
 
-LEAN_MODULES = ["Pff.Props.C01", "Pff.Props.C02", "Pff.Props.RunC", "Pff.Props.Bridge", "Pff.Props.Chain", "Pff.Props.Chain2", "Pff.Props.NonVacuity"]
+LEAN_MODULES = ["Pff.Props.C01", "Pff.Props.C02", "Pff.Props.RunC", "Pff.Props.Bridge", "Pff.Props.Chain", "Pff.Props.Chain2", "Pff.Props.NonVacuity", "Pff.Props.Sound"]
 PROP_MODULE = "Pff.Props.C01"
 THEOREMS = ["Pff.Ecc.C01_whole_file_partial", "Pff.Ecc.C01_header_file_partial", "Pff.Ecc.C01_exit",
             "Pff.Run.C01_run_within_capacity",
@@ -21,7 +21,12 @@ THEOREMS = ["Pff.Ecc.C01_whole_file_partial", "Pff.Ecc.C01_header_file_partial",
             "Pff.Chain.C01_chain_A_erasures",
             "Pff.Chain.C01_chain_B_erasures",
             "Pff.NonVacuity.pristine_withinCapacity",
-            "Pff.NonVacuity.pristine_withinCapacityBytes_A"]
+            "Pff.NonVacuity.pristine_withinCapacityBytes_A",
+            "Pff.RSSpec.C02_decode_sound",
+            "Pff.Sound.C01_block_sound_A",
+            "Pff.Sound.C01_block_sound_B",
+            "Pff.Sound.C01_file_sound_whole",
+            "Pff.Sound.C01_file_sound_header"]
 MODELLED = [("pyFileFixity/header_ecc.py", "main"), ("pyFileFixity/structural_adaptive_ecc.py", "main"),
             ("pyFileFixity/lib/eccman.py", "ECCMan.decode")]
 MODELLED = sorted(set(MODELLED + fx.WHOLE_RUN_MODELLED))
